@@ -257,10 +257,10 @@ fn proc_cases() -> Vec<Case> {
         }); // zombie: success
         sim.push(w(&mut k, c, libc::WNOHANG)); // status
         sim.push(w(&mut k, c, libc::WNOHANG)); // ECHILD
-        sim.push(match k.k_kill(Ent::Harness, c, libc::SIGTERM) {
+        sim.push(match k.k_kill(Ent::Harness, c, 0) {
             Ok(()) => 0,
             Err(e) => -(e as i64),
-        }); // ESRCH
+        }); // ESRCH (probed with signal 0: on the real side the pid could in principle be somebody else's by now)
         sim.push(w(&mut k, 1, libc::WNOHANG)); // not our child: ECHILD
         // killed by a signal: status encoding incl. core flag
         let c2 = k.fork_proc(P, 0, PKind::Child(1));
@@ -329,22 +329,33 @@ fn proc_cases() -> Vec<Case> {
             real.push(kill(c, libc::SIGTERM));
             real.push(rw(c, libc::WNOHANG));
             real.push(rw(c, libc::WNOHANG));
-            real.push(kill(c, libc::SIGTERM));
+            real.push(kill(c, 0));
             real.push(rw(1, libc::WNOHANG));
             Real::close(pr);
             Real::close(pw);
             let mk_pauser = |ignore_term: bool| -> i32 {
+                // the child reports through a pipe when it is set up: no guessing with sleeps
+                let mut ready = [0i32; 2];
+                libc::pipe(ready.as_mut_ptr());
                 let c = libc::fork();
                 if c == 0 {
                     // never outlive the test, whatever happens to the signals
-                    libc::alarm(30);
+                    libc::alarm(60);
                     if ignore_term {
                         libc::signal(libc::SIGTERM, libc::SIG_IGN);
                     }
+                    libc::close(ready[0]);
+                    let b = [1u8];
+                    libc::write(ready[1], b.as_ptr() as *const libc::c_void, 1);
+                    libc::close(ready[1]);
                     loop {
                         libc::pause();
                     }
                 }
+                libc::close(ready[1]);
+                let mut b = [0u8];
+                libc::read(ready[0], b.as_mut_ptr() as *mut libc::c_void, 1);
+                libc::close(ready[0]);
                 c
             };
             let c2 = mk_pauser(false);
@@ -354,8 +365,6 @@ fn proc_cases() -> Vec<Case> {
             kill(c3, libc::SIGQUIT);
             real.push(rw(c3, 0) & !0x80);
             let c4 = mk_pauser(true);
-            // give it time to install the disposition
-            libc::usleep(50_000);
             kill(c4, libc::SIGTERM);
             libc::usleep(20_000);
             real.push(rw(c4, libc::WNOHANG));
@@ -364,7 +373,7 @@ fn proc_cases() -> Vec<Case> {
             let c5 = mk_pauser(false);
             kill(c5, libc::SIGSTOP);
             // wait (bounded) until the stop has happened
-            for _ in 0..200 {
+            for _ in 0..6000 {
                 let mut buf = [0u8; 256];
                 let path = format!("/proc/{}/stat\0", c5);
                 let fd = libc::open(path.as_ptr() as *const libc::c_char, libc::O_RDONLY);
